@@ -6,6 +6,7 @@ from ..vflow import Canon, derived_pointers, strip_int_casts, strip_ptr_casts, a
 from ..guards import Facts, dominating_edges
 from ..retval import returns_via_edge, all_negative, all_nonzero_const
 from ..build import AnalysisBroken
+from ..ir import INT
 from . import shared
 
 EXPLANATION = (
@@ -129,6 +130,58 @@ def run(ctx):
                  'an accepted shape outside these bounds divides by zero or over-reads matrices')
     shared.rule_create_shapes(ctx, P, r)
     r.require_min(6)
+
+    # ---------------- R13i the table of supported backends is indexed below EC_BACKENDS_MAX
+    r = ctx.rule('R13i', 'an entry of ec_backends_supported[] is dereferenced only for an index below EC_BACKENDS_MAX (or after a NULL test of the entry)',
+                 'the table has EC_BACKENDS_MAX entries and a NULL terminator: index EC_BACKENDS_MAX reads the terminator and dereferences NULL')
+    from ..guards import upper_bound_at as _ub13
+    ids13 = {}
+    for m_ in P.mods:
+        ids13.update(m_.enumerators('EC_BACKENDS_MAX'))
+    bmax = ids13.get('EC_BACKENDS_MAX')
+    if bmax is None:
+        raise AnalysisBroken('anchor vanished: enumerator EC_BACKENDS_MAX')
+    NC13 = nullcheck.NullCheck(P)
+    n13 = 0
+    for fn in P.fns.values():
+        if not fn.mod.src.startswith('src/erasurecode'):
+            continue
+        for ld in fn.insts():
+            if ld.op != 'load' or not ld.ty or not ld.ty.endswith('*'):
+                continue
+            gp_ = fn.defs.get(ld.ops[0])
+            if gp_ is None or gp_.op != 'getelementptr' or gp_.ops[0] != '@ec_backends_supported' or INT.match(gp_.ops[-1]):
+                continue
+            n13 += 1
+            idx = strip_int_casts(fn, gp_.ops[-1])
+            bad, nsites = NC13.unchecked(fn, [ld.res])
+            # the address of a member handed to a callee (`entry->common.name` as a %s argument) is a use of the entry as well
+            A13, _ = derived_pointers(fn, [ld.res])
+            offs = {g_.res for g_ in fn.insts() if g_.op == 'getelementptr' and g_.ops[0] in A13}
+            O13, _ = derived_pointers(fn, list(offs)) if offs else (set(), None)
+            from ..nullcheck import nonnull_edges as _nne13
+            guarded = set()
+            for (sb, db) in _nne13(fn, A13):
+                from ..cfg import reachable_from as _rf13
+                guarded |= _rf13(db)
+            for u in fn.insts():
+                ops_ = u.ops if u.op != 'phi' else [x for x, _ in u.incoming]
+                if u.op in ('call', 'phi') and any(isinstance(o, str) and o in O13 for o in ops_) and not (u.callee or '').startswith('@llvm.dbg') and u.bb not in guarded:
+                    bad = list(bad) + [(u, 'member address handed on')]
+            inst = f'{fn.name}: ec_backends_supported[index] at line {ld.line}'
+            if not bad:
+                r.ok(inst + (': entry tested for NULL before use' if nsites else ': entry not dereferenced here'), func=fn.name, loc=ld.loc)
+                continue
+            ubs = [_ub13(P, fn, idx, ld.bb)]        # what is known about the index where the entry is fetched
+            if all(u is not None and u <= bmax - 1 for u in ubs):
+                r.ok(inst + f': index <= {bmax - 1} where the entry is dereferenced', func=fn.name, loc=ld.loc)
+            else:
+                r.fail(inst, func=fn.name, sig=f'backend table entry dereferenced with index bound {ubs}', loc=bad[0][0].loc,
+                       msg=f'ec_backends_supported[index] is used at line {bad[0][0].line or ld.line} although the index is only known to be <= {ubs[0]} '
+                           f'(needs <= {bmax - 1}): index {bmax} selects the NULL terminator')
+    if not n13:
+        r.undecided('backend table subscripts', loc='src/erasurecode.c', msg='no variable subscript of ec_backends_supported found')
+    r.require_min(2)
 
     # ---------------- R13e divisors
     r = ctx.rule('R13e', 'front-end divisions: divisor built only from k and the byte word size',
